@@ -355,27 +355,47 @@ def rsa_key_layout_unit():
             e1.record_path_fact(P, 'RSA key field: the exponent is written with compose_mpint', False)
             return
         P.oblige('RSA key field: the exponent is written with at least one octet', el >= 1)
+        # RFC 3110 2: "leading zero octets are prohibited in the exponent and modulus" - each occupies the minimal number of
+        # octets, ceil(bit_length / 8); bit_length is the interpreter's model of int.bit_length (one result per term), so the
+        # lengths the code hands to compose_mpint are compared with the specification's, wherever the code takes them from
+        from pyvc.models import _int_bit_length
+        ml = next((l0 for v0, l0, s0 in memo if P.entails(v0 == m) and not P.entails(v0 == e)), None)
+        if ml is None:
+            ml = next((l0 for v0, l0, s0 in reversed(memo) if P.entails(v0 == m)), None)
+        if ml is None:
+            e1.record_path_fact(P, 'RSA key field: the modulus is written with compose_mpint', False)
+            return
+        P.oblige('RSA key field: the exponent occupies ceil(bit_length / 8) octets (no leading zero octets, RFC 3110 2)',
+                 el == (ops.as_int(_int_bit_length(SInt(e))) + 7) / 8)
+        P.oblige('RSA key field: the modulus occupies ceil(bit_length / 8) octets (no leading zero octets, RFC 3110 2)',
+                 ml == (ops.as_int(_int_bit_length(SInt(m))) + 7) / 8)
         if P.branch(el <= 255):
             prefix = cat(u8(el))
         else:
             prefix = cat(u8(0), u16(el))
         vc.oblige_equal(P, 'RSA key field: exponent length (1 octet for 1..255, else 0 + 2 octets), exponent, modulus (RFC 3110 2)',
-                        wire, cat(prefix, FX(SInt(e), SInt(el)), FX(SInt(m), SInt(ks / 8))))
+                        wire, cat(prefix, FX(SInt(e), SInt(el)), FX(SInt(m), SInt(ml))))
 
     def native(seed=0, hints=()):
-        from cryptodatahub.common.key import PublicKey, PublicKeyParamsRsa
-        for ebytes in (1, 3, 254, 255, 256, 257):
-            e = (1 << (8 * ebytes - 1)) | 1
-            n = (1 << 1023) | 1
+        cases = [((1 << (8 * eb - 1)) | 1, (1 << 1023) | 1) for eb in (1, 3, 254, 255, 256, 257)]
+        # moduli just above a power of 256 (the external bit size of such a key is one octet short), ordinary odd sizes
+        cases += [(65537, (1 << nb) | 1) for nb in (1024, 1032, 2048, 1030, 1027)] + [(65537, (1 << 1024) - 1), (3, (1 << 511) | 1)]
+        for e, n in cases:
             try:
                 k = _rsa_dnskey(e, n)
-                rdata = bytes(k.compose())[4:]
             except Exception:
-                continue
-            want = (bytes([ebytes]) if ebytes <= 255 else b'\x00' + ebytes.to_bytes(2, 'big')) + e.to_bytes(ebytes, 'big') + n.to_bytes(128, 'big')
+                continue                                         # the key object itself cannot be built: not this clause
+            eb, nb = (e.bit_length() + 7) // 8, (n.bit_length() + 7) // 8
+            call = 'DNSKEY with an RSA exponent of %d octets and a modulus of %d bits: key field of compose()' % (eb, n.bit_length())
+            try:
+                rdata = bytes(k.compose())[4:]
+            except Exception as ex:
+                return dict(reproduced=True, call=call, expected='composed (RFC 3110 2 admits every modulus)', observed=repr(ex)[:160],
+                            key='rsa key field')
+            want = (bytes([eb]) if eb <= 255 else b'\x00' + eb.to_bytes(2, 'big')) + e.to_bytes(eb, 'big') + n.to_bytes(nb, 'big')
             if rdata != want:
-                return dict(reproduced=True, call='DNSKEY with an RSA exponent of %d octets, key field of compose()' % ebytes,
-                            expected=want[:6].hex() + '...', observed=rdata[:6].hex() + '...', key='rsa exponent length')
+                return dict(reproduced=True, call=call, expected=want[:6].hex() + '... (%d octets)' % len(want),
+                            observed=rdata[:6].hex() + '... (%d octets)' % len(rdata), key='rsa key field')
         return dict(reproduced=False)
     return Unit('K6-key/RSA (RFC 3110)', lambda: (e1.setup(), vc.run_unit('rsa-key', thunk, max_paths=200))[1], replay=lambda inputs: native(0),
                 search=native, clause='K6 key material', functions=['DnsRecordDnskey._compose_public_key_rsa'])
